@@ -64,13 +64,40 @@ def slot_null_fact(p, slot):
     return fact
 
 
+def search_provenance(fn, m, owner, L, R):
+    """Is the node `owner` (a loop-carried SSA value) produced only by  x->left  of the current node or  owner->right ?"""
+    from .. import flow
+    if owner[0] != "sym":
+        return "the owning node %s is not the loop-carried search variable" % fmt(owner)[:40]
+    phi = fn.defs.get(owner[1])
+    if phi is None or phi.op != "phi":
+        return "%s is not a loop-carried value" % owner[1]
+    for v, b in phi.incoming:
+        ld = v.inst
+        if ld is None or ld.op != "load":
+            return "incoming value %r is not loaded from a child link" % v
+        try:
+            pp = flow.resolve_ptr(ld.ops[0], m)
+        except AnalysisError:
+            return "incoming value not resolvable"
+        if pp.var:
+            return "incoming value through a variable offset"
+        if pp.root.k == "inst" and pp.root.name == phi.name and pp.off == R:
+            continue                    # prev = prev->right
+        if pp.off == L and pp.root.k == "inst" and pp.root.inst is not None and pp.root.inst.op == "phi":
+            continue                    # prev = curr->left  (curr is the outer loop's node)
+        return "it is loaded from offset %d of %r" % (pp.off, pp.root)
+    return True
+
+
 def check_morris(chk, m, name, order, L, R, CUR):
     fn, ss = segs(m, name)
     chk.note_fn(fn)
     n_thread = n_unthread = n_dec = 0
     for s, p in ss:
         sid = "%s %s..%s [%s]" % (name, s.lstrip("%"), p.end, "->".join(b.lstrip("%") for b in p.blocks[-3:]))
-        stores = [e for e in p.events if e.kind == "store" and ptr_parts(e.ptr)[1] == R and ptr_parts(e.ptr)[0][0] == "sym"]
+        stores = [e for e in p.events if e.kind == "store" and ptr_parts(e.ptr)[1] == R and ptr_parts(e.ptr)[0][0] in ("sym", "ld", "call")
+                  and not ptr_parts(e.ptr)[2]]
         # prune the infeasible combination  prev->right == NULL  and  prev->right == curr  (curr is dereferenced, hence non-NULL)
         infeasible = False
         for c, taken, inst in p.conds:
@@ -84,6 +111,11 @@ def check_morris(chk, m, name, order, L, R, CUR):
             f = slot_null_fact(p, e.ptr)
             if e.val == ("null",):
                 n_unthread += 1
+                prov = search_provenance(fn, m, ptr_parts(e.ptr)[0], L, R)
+                chk.ob("M1.unthread-provenance", sid, prov is True,
+                       "the link that is reset was reached by the predecessor search (prev = curr->left, then prev = prev->right ...): %s" %
+                       ("yes" if prov is True else "NO - %s; a link found any other way may be a genuine right child, which would be "
+                        "cut off together with its subtree" % prov), e.inst.loc, name)
                 chk.ob("M1.unthread", sid, f is False,
                        "prev->right is reset to NULL only where the search found it non-NULL, i.e. found the thread back to curr "
                        "(NULL-ness of the slot on this path: %s)" % f, e.inst.loc, name)
